@@ -426,3 +426,107 @@ def r_csc_helpers(A, ctx, scope, rule="R-CSC-HELPERS"):
             except (Unsupported, ZeroDivisionError, IndexError) as e:
                 ctx.ob(rule, key, None, detail=f"not lifted: {e}")
     ctx.floor(rule, n, scope.get("floor", 16))
+
+
+# ------------------------------------------------------------------ fixed-point scores
+def r_fixpoint(A, ctx, scope, rule="R-FIXPOINT"):
+    ctx.rule(rule, "fixed-point scores are what they say: for a working set in non-trivial order and "
+             "coordinate-dependent weights, entry k of dist_fix_point_* is |w_j - prox(w_j - g_k / L_k, "
+             "1 / L_k, j)| (Euclidean norm for blocks) with j = ws[k], the gradient and the constant "
+             "taken at position k, the coefficient and the prox at coordinate j")
+    prog = A.prog
+    n = 0
+
+    def fresh():
+        rg = Region(world())
+        return RegionLifter(prog, rg, max_steps=20000), rg
+    # ---- scalar
+    f = _func(A, "skglm.solvers.common", "dist_fix_point_cd")
+    for pname in ("WeightedL1", "WeightedMCPenalty"):
+        pcls = _cls(prog.penalties, pname)
+        if pcls is None:
+            continue
+        key = f"{f.fq}::{pname}"
+        try:
+            L, rg = fresh()
+            pobj = make_obj(prog, pcls)
+            w = Vec(sym(f"w{j}") for j in range(P))
+            ws = Vec([2, 0])
+            g = Vec([sym("g0"), sym("g1")])
+            lc = Vec([sym("lc0"), sym("lc1")])
+            got = L.call_function(f, [w, g, lc, None, pobj, ws])
+            exp = Vec()
+            for k, j in enumerate(ws):
+                step = const(1) / lc[k]
+                u = L.call_function(pcls.find_method("prox_1d"), [w[j] - step * g[k], step, j], self_obj=pobj)
+                exp.append(L.absval(R(w[j]) - R(u)))
+            d = _first_diff(rg, Vec(list(got)[:2]), exp)
+            n += 1
+            ctx.ob(rule, key, d is None, what=f"dist_fix_point_cd with {pname}, ws = [2, 0]: {d} (score vs "
+                   "|w_j - prox(w_j - g_k / L_k, 1 / L_k, j)|)", loc=loc(f, f.node))
+        except Raised as e:
+            n += 1
+            ctx.ob(rule, key, False, what=f"dist_fix_point_cd raises: {e}", loc=loc(f, f.node))
+        except (Unsupported, ZeroDivisionError, IndexError) as e:
+            ctx.ob(rule, key, None, detail=f"not lifted: {e}")
+    # ---- groups
+    f = _func(A, "skglm.solvers.common", "dist_fix_point_bcd")
+    pcls = _cls(prog.penalties, "WeightedGroupL2")
+    key = f"{f.fq}::WeightedGroupL2"
+    try:
+        L, rg = fresh()
+        pobj = make_obj(prog, pcls)
+        w = Vec(sym(f"w{j}") for j in range(P))
+        ws = Vec([1, 0])                       # groups {0, 1} then {2}
+        g = Vec([sym("g0"), sym("g1"), sym("g2")])          # stacked: group 1 (2 entries), group 0
+        lc = Vec([sym("lc0"), sym("lc1")])
+        got = L.call_function(f, [w, g, lc, None, pobj, ws])
+        exp = Vec()
+        ptr = 0
+        gi, gp = pobj.attrs["grp_indices"], pobj.attrs["grp_ptr"]
+        for k, grp in enumerate(ws):
+            idxs = [gi[i] for i in range(gp[grp], gp[grp + 1])]
+            step = const(1) / lc[k]
+            wg = Vec(w[i] for i in idxs)
+            gg = Vec(g[ptr + i] for i in range(len(idxs)))
+            ptr += len(idxs)
+            u = L.call_function(pcls.find_method("prox_1group"),
+                                [L.binop(ast.Sub, wg, L.binop(ast.Mult, gg, step)), step, grp], self_obj=pobj)
+            exp.append(L.norm2(L.binop(ast.Sub, wg, Vec(u))))
+        d = _first_diff(rg, Vec(list(got)[:2]), exp)
+        n += 1
+        ctx.ob(rule, key, d is None, what=f"dist_fix_point_bcd with WeightedGroupL2, ws = [1, 0]: {d}",
+               loc=loc(f, f.node))
+    except Raised as e:
+        n += 1
+        ctx.ob(rule, key, False, what=f"dist_fix_point_bcd raises: {e}", loc=loc(f, f.node))
+    except (Unsupported, ZeroDivisionError, IndexError) as e:
+        ctx.ob(rule, key, None, detail=f"not lifted: {e}")
+    # ---- multitask
+    f = _func(A, "skglm.solvers.multitask_bcd", "dist_fix_point_bcd")
+    pcls = _cls(prog.penalties, "L2_1")
+    key = f"{f.fq}::L2_1"
+    try:
+        L, rg = fresh()
+        pobj = make_obj(prog, pcls)
+        W = Mat(Vec(sym(f"W{j}{t}") for t in range(T)) for j in range(P))
+        ws = Vec([2, 0])
+        G = Mat(Vec(sym(f"XW{k}{t}") for t in range(T)) for k in range(2))     # any symbols: gradient rows
+        lc = Vec([sym("lc0"), sym("lc1")])
+        got = L.call_function(f, [W, G, lc, None, pobj, ws])
+        exp = Vec()
+        for k, j in enumerate(ws):
+            step = const(1) / lc[k]
+            arg = L.binop(ast.Sub, Vec(W[j]), L.binop(ast.Mult, Vec(G[k]), step))
+            u = L.call_function(pcls.find_method("prox_1feat"), [arg, step, j], self_obj=pobj)
+            exp.append(L.norm2(L.binop(ast.Sub, Vec(W[j]), Vec(u))))
+        d = _first_diff(rg, Vec(list(got)[:2]), exp)
+        n += 1
+        ctx.ob(rule, key, d is None, what=f"multitask dist_fix_point_bcd with L2_1, ws = [2, 0]: {d}",
+               loc=loc(f, f.node))
+    except Raised as e:
+        n += 1
+        ctx.ob(rule, key, False, what=f"multitask dist_fix_point_bcd raises: {e}", loc=loc(f, f.node))
+    except (Unsupported, ZeroDivisionError, IndexError) as e:
+        ctx.ob(rule, key, None, detail=f"not lifted: {e}")
+    ctx.floor(rule, n, scope.get("floor", 4))
